@@ -558,7 +558,13 @@ func (ex *Exec) discharge(res *RunResult, cfg RunConfig) {
 				var model map[string]string
 				for si, s := range solvers {
 					t0 := time.Now()
-					r := s.Check(terms, ms)
+					msS := ms
+					if si > 0 && msS > 15000 {
+						// the cross-check solver gets a bounded share of the time: a query it cannot
+						// answer in it is counted as not cross-checked
+						msS = 15000
+					}
+					r := s.Check(terms, msS)
 					el := time.Since(t0).Milliseconds()
 					if r == Sat && si == 0 && j.kind == "main" {
 						model = ex.extractModel(s)
@@ -588,7 +594,7 @@ func (ex *Exec) discharge(res *RunResult, cfg RunConfig) {
 						fmt.Printf("[%6.1fs] w%d %s %s/%s %q %s -> %s in %dms (timeout %d)\n", time.Since(ex.start).Seconds(), w, cfg.Name, o.Kind, j.kind, lbl, o.Pos, r, el, ms)
 					}
 					mu.Unlock()
-					if r == Unknown && el >= int64(ms)-50 {
+					if r == Unknown && el >= int64(msS)-50 {
 						// a timed-out solver process may be left in a bad state: restart lazily
 						s.Kill()
 					}
